@@ -100,6 +100,11 @@ def run_check(prop, tier, seed, replay=None):
         if run.discharged != run.obligations:
             bad = [d for d in run.obl_details if d["status"] != "ok"]
             raise HarnessError("undischarged obligations on the framework side: %s" % bad)
+        if tier == "thorough" and replay is None:
+            ok, secs, msg = common.recheck()
+            run.notes.append("leanchecker %.1fs: %s" % (secs, msg))
+            if not ok:
+                raise HarnessError("leanchecker rejected the compiled library: %s" % msg)
         prop.setup(run)
 
         if replay is not None:
